@@ -24,8 +24,10 @@ RULE = ("every definition function (avhrr, avhrr_gac [int and datetime-list scan
         "avhrr_gac with a LIST of line time stamps (correspondence and oracle): stamps on the 0.5 s scan grid, consecutive "
         "(2-50 lines; the geometry must be the one of the count form: all timing clauses, columns of the full geometry) and "
         "with gaps of 1 scan .. 2.8 h (span < 1 day; oracle only: increasing along a line, a line ends before the next "
-        "begins, consecutive stamps one period apart, columns of the full geometry of the same list), starting at arbitrary "
-        "microseconds on ordinary days 1990-2049 and placed so that the list straddles the begin / the end of the skipped or "
+        "begins, consecutive stamps one period apart, columns of the full geometry of the same list), and stamps OFF the grid "
+        "(0.5 s * k + whole ms / a few ms + a few us / any us within +-5 ms / a drifting line clock; consecutive and with gaps; "
+        "oracle only: the same clauses, successive scans offset by the exact difference of their stamps - integer us - within "
+        "2 ns), starting at arbitrary microseconds on ordinary days 1990-2049 and placed so that the list straddles the begin / the end of the skipped or "
         "repeated wall-clock hour, or the UTC instant, of both clock changes of the process time zone in a random year (zones "
         "without switches: a POSIX rule zone set with time.tzset for the case and recorded in it; one case of another zone); "
         "reuse: ONE position array (float64 holding whole or half-pixel positions, or int64) handed as itself and as views "
@@ -42,7 +44,8 @@ ASSUMPTIONS = ["default options of the definition functions (scan_angle, frequen
                "'lines of a scan share the same angles' is read for VIIRS as: across-track angles equal on every line, "
                "along-track angle constant along a line and equal for the same detector in every scan; 'a line ends "
                "before the next begins' is read per scan for VIIRS (its 32 detector lines are simultaneous)",
-               "avhrr_gac given a list of line time stamps: stamps on the 0.5 s scan grid, strictly increasing, the whole list "
+               "avhrr_gac given a list of line time stamps: stamps on the 0.5 s scan grid or within 5 ms of it (whole "
+               "microseconds; the scan period between two successive lines is then the difference of their stamps), strictly increasing, the whole list "
                "spanning less than one day (the statement's scans are successive; the code takes `(t - t0).seconds`, which "
                "wraps for a stamp a day or more after - or any time before - the first one)",
                "swath limits, scan periods and position counts the oracle judges against are the published values "
@@ -113,13 +116,19 @@ def resolve(name, sel):
 
 
 def line_stamps(lines, line_times=None):
-    """The list of line time stamps of the datetime-list form of avhrr_gac: t0 + 0.5 s * steps[k] (default: 2020-01-01 12:00,
-    consecutive scans)."""
+    """The list of line time stamps of the datetime-list form of avhrr_gac: t0 + 0.5 s * steps[k] (+ jitter_us[k] whole
+    microseconds when the stamps are off the scan grid; default: 2020-01-01 12:00, consecutive scans)."""
     if not line_times:
         t0, steps = dt.datetime(2020, 1, 1, 12, 0, 0), list(range(lines))
     else:
         t0, steps = dt.datetime.fromisoformat(line_times["t0"]), list(line_times["steps"])
-    return [t0 + dt.timedelta(microseconds=500000 * int(m)) for m in steps]
+    return [t0 + dt.timedelta(microseconds=us) for us in stamp_offsets_us(steps, line_times)]
+
+
+def stamp_offsets_us(steps, line_times=None):
+    """Exact integer microseconds of every line stamp after t0: 500000 * steps[k] + jitter_us[k]."""
+    jit = list((line_times or {}).get("jitter_us") or [0] * len(steps))
+    return [500000 * int(m) + int(j) for m, j in zip(steps, jit)]
 
 
 def build(name, lines, sel, variant=None, line_times=None):
@@ -379,7 +388,8 @@ def judge(name, lines, sel, variant=None, full_cache=None, check_subset=True, li
     P = len(pts)
     L = lines * sp.get("det", 1)
     steps = list(line_times["steps"]) if line_times else list(range(lines))
-    gapped = steps != list(range(lines))
+    jittered = bool(line_times and line_times.get("jitter_us"))      # stamps off the 0.5 s grid (whole microseconds)
+    gapped = steps != list(range(lines)) or jittered
     geom = build(name, lines, sel, variant, line_times)
     use_geometry(geom)
     fovs = np.asarray(geom.fovs)
@@ -454,8 +464,22 @@ def judge(name, lines, sel, variant=None, full_cache=None, check_subset=True, li
                 k = int(np.argmax(~(ends[:-1] < begins[1:])))
                 bad.append(("line_overlaps_next", {"scan": k, "ends_ns": int(ends[k]), "next_begins_ns": int(begins[k + 1])},
                             "end < next begin"))
-            dev = np.abs((t[det:] - t[:-det]).astype(np.float64) - per_ns)
-            if gapped:        # stamps that are not consecutive scans: only consecutive pairs are "successive scans"
+            if jittered:
+                # the stamps ARE the line times: the period between two successive scans is the difference of their stamps,
+                # taken exactly (integer microseconds -> integer ns); every sample of the later line is that much later
+                succ = np.diff(np.array(steps)) == 1
+                want = (np.diff(np.array(stamp_offsets_us(steps, line_times), dtype=np.int64)) * 1000)[:, None]
+                delta = t[1:] - t[:-1]
+                dev = np.abs(delta - want)[succ]
+                if dev.size and dev.max() > 2:
+                    idx = np.unravel_index(int(np.argmax(dev)), dev.shape)
+                    bad.append(("scan_offset", {"line": int(np.flatnonzero(succ)[idx[0]]), "col": int(idx[1]),
+                                                "delta_ns": int(delta[succ][idx])},
+                                "the difference of the two line stamps, %d ns, +- 2" % int(want[succ][idx[0], 0])))
+                dev = np.zeros(0)
+            else:
+                dev = np.abs((t[det:] - t[:-det]).astype(np.float64) - per_ns)
+            if gapped and not jittered:        # stamps that are not consecutive scans: only consecutive pairs are "successive scans"
                 dev = dev[np.diff(np.array(steps)) == 1]
             if dev.size and dev.max() > 2.0:
                 idx = np.unravel_index(int(np.argmax(dev)), dev.shape)
@@ -503,9 +527,9 @@ def gen_gac_lists(ctx):
     other = r.choice([z for z in DST_ZONES if z != zone])
     out = []
 
-    def one(anchor, placement, tz, consecutive):
+    def one(anchor, placement, tz, consecutive, jitter=None):
         lines = r.choice([2, 3, 7, 50]) if not thorough or r.random() < 0.5 else r.randint(2, 50)
-        if consecutive:
+        if consecutive or (jitter and r.random() < 0.7):
             steps = list(range(lines))
         else:
             steps = [0]
@@ -530,8 +554,24 @@ def gen_gac_lists(ctx):
         sel = r.choice([{"kind": "default"}, {"kind": "slice", "slice": [a, r.randrange(a + 1, n + 1), r.choice([None, 5, 40])]},
                         {"kind": "points", "points": sorted(r.sample(range(n), r.randrange(2, 40)))},
                         {"kind": "points", "points": r.sample(range(n), r.randrange(1, 40))}, {"kind": "points", "points": [0, n - 1]}])
-        out.append({"lines": lines, "selection": sel, "consecutive": consecutive, "process_tz": tz, "placement": placement,
-                    "line_times": {"t0": t0.isoformat(), "steps": steps}})
+        lt = {"t0": t0.isoformat(), "steps": steps}
+        if jitter:
+            # stamps as found in level-1b line headers: the nominal 0.5 s grid + an offset of whole microseconds, well
+            # below the 0.4 s between the end of a line and the begin of the next (so the stamps stay strictly increasing)
+            if jitter == "ms":            # whole milliseconds
+                jit = [1000 * r.randint(0, 4) for _ in steps]
+            elif jitter == "ms+us":       # a few ms + a few us
+                jit = [1000 * r.randint(-4, 4) + r.randint(-9, 9) for _ in steps]
+            elif jitter == "us":          # any microsecond within +-5 ms
+                jit = [r.randint(-5000, 5000) for _ in steps]
+            else:                         # "drift": a line clock running fast or slow by 1 - 40 us per line + 0-2 us noise
+                d = r.choice([-1, 1]) * r.randint(1, 40)
+                jit = [d * k + r.randint(0, 2) for k in range(len(steps))]
+            if not any(j % 250000 for j in jit):
+                jit[-1] += 1003
+            lt["jitter_us"] = jit
+        out.append({"lines": lines, "selection": sel, "consecutive": consecutive and not jitter, "process_tz": tz,
+                    "placement": placement, "line_times": lt})
 
     for tz, reps, all_switches in ((zone, 3 if thorough else 1, True), (other, 2 if thorough else 1, False)):
         for _ in range(reps):
@@ -551,6 +591,10 @@ def gen_gac_lists(ctx):
     for _ in range(12 if thorough else 3):
         one(None, "ordinary_day", None, True)
         one(None, "ordinary_day/gaps", None, False)
+    # stamps OFF the 0.5 s grid (oracle only: the model is the count-form geometry)
+    for _ in range(8 if thorough else 2):
+        for j in ("ms", "ms+us", "us", "drift"):
+            one(None, "ordinary_day/jitter-" + j, None, False, jitter=j)
     return out
 
 
